@@ -40,12 +40,13 @@ type Round struct {
 }
 
 type Case struct {
-	Mode    string  `json:"mode"` // seq | conc
-	Seed    uint64  `json:"seed"`
-	Chain   *Node   `json:"chain"`
-	Ops     []Op    `json:"ops,omitempty"`     // seq
-	Rounds  []Round `json:"rounds,omitempty"`  // conc
-	Perturb []int   `json:"perturb,omitempty"` // conc: yields/sleeps consumed at failover.selected / swap.locked
+	Mode    string   `json:"mode"` // seq | conc | cli
+	Seed    uint64   `json:"seed"`
+	Chain   *Node    `json:"chain,omitempty"`
+	Ops     []Op     `json:"ops,omitempty"`     // seq
+	Rounds  []Round  `json:"rounds,omitempty"`  // conc
+	Perturb []int    `json:"perturb,omitempty"` // conc: yields/sleeps consumed at failover.selected / swap.locked
+	CLI     *CLICase `json:"cli,omitempty"`     // cli: the chain is built by the command itself (cli_test.go)
 }
 
 // ---------------------------------------------------------------- generators
@@ -263,6 +264,12 @@ func genSeq(t *rapid.T, c *Case) {
 
 func genCase(t *rapid.T) Case {
 	c := Case{Seed: rapid.Uint64Range(0, 1<<20).Draw(t, "seed")}
+	// CLI cases start a child process (~0.1 s): about 1 in 128 cases in quick (~150 per run), 1 in 32 in thorough
+	if (&gctx{t: t}).u(cliRate(), "cli") == 0 {
+		c.Mode = "cli"
+		genCLI(t, &c)
+		return c
+	}
 	if (&gctx{t: t}).pct(22, "conc") {
 		c.Mode = "conc"
 		genConc(t, &c)
@@ -592,6 +599,10 @@ func isCLIShape(n *Node) bool {
 func run(c Case) (o hx.Outcome) {
 	raw, _ := json.Marshal(c)
 	o.Key = string(raw)
+	if c.Mode == "cli" {
+		runCLI(c, &o)
+		return o
+	}
 	if !c.Chain.sane() {
 		o.Desc = map[string]any{"mode": c.Mode, "shape": "unbuildable"}
 		o.Class("unbuildable-spec")
@@ -650,13 +661,19 @@ var spec = &hx.Spec[Case]{
 	Rule: "cases = (chain of Router[2..3]/Failover[2..3]/Cache[+repair]/Swap/Dedup over in-memory leaves incl. the shapes the CLI builds, 4 chunk IDs, " +
 		"per-leaf faults down / fail-at-call-k / invalid object) x (sequential history of <=30 get/has/store/swap/break/heal/corrupt steps compared step by step with a reference model, " +
 		"or a concurrent phase of 2..6 goroutines x 1..4 rounds against failover/swap chains with a controller swapping/breaking/healing and generated yields at failover.selected/swap.locked); " +
-		"non-trivial = history with a failover advance, a cache fill or a cache repair, or concurrent case with a failover advance or a swap issued while >=1 request was in flight; distinct by the whole case",
+		"plus, when the built command is available, CLI cases (about 1 in 128 quick / 1 in 32 thorough, and a fixed grid of 40): desync extract / cat / chunk-server --store-file + SIGHUP given 1..3 -s entries " +
+		"(directory, harness HTTP chunk server, raw file server, failover group a|b of 2..3) and an optional -c cache (directory or writable HTTP store) with --cache-repair default/true/false, per member absent/valid/invalid objects and down = connection refused / always 500; " +
+		"non-trivial = history with a failover advance, a cache fill or a cache repair, or concurrent case with a failover advance or a swap issued while >=1 request was in flight, " +
+		"or CLI case whose documented resolution needs a failover advance, a cache fill or a cache repair; distinct by the whole case",
 	Assumptions: []string{
 		"leaves are in-memory stores that verify stored bytes against the ID like a real store (ChunkInvalid) and report absence as ChunkMissing",
 		"reference model written from README (Caching, Multiple chunk stores, Store failover, Dynamic store configuration) and type doc comments; only result classes and the side effects named in the statement are compared",
 		"whether a request fails when filling the cache fails is not documented: no verdict for such a step",
 		"concurrent oracle: a failover member counts as healthy only if it has no fault of any kind during the whole phase; expectations only for IDs that every chain version serves (or lacks) by construction",
 		"interleavings come from the Go scheduler plus generated yields; a green concurrent phase is evidence, not proof",
+		"CLI cases: only the exit status, the output, the cache directory afterwards and the request logs of the harness HTTP stores are observed; one-shot commands are judged by an order-free evaluation of the same model " +
+			"(no verdict on the exit status when members of one failover group differ for an ID and requests are concurrent); with --cache-repair=false an invalid cache entry must make the command fail (README, Caching); " +
+			"the chunk server is started with --skip-verify-read=false and driven by one sequential client; the reload is recognised only by the server's own answer for a marker chunk; a child that exceeds its time limit gives no verdict",
 	},
 	Required: []string{"mode:seq", "mode:conc", "shape:cli", "node:router", "node:failover", "node:cache", "node:swap", "node:dedup",
 		"fault:down", "fault:fail-at-k", "fault:invalid",
@@ -669,7 +686,16 @@ var spec = &hx.Spec[Case]{
 	Watchdog: 60 * time.Second,
 }
 
+// classes the CLI mode must populate when the command is available
+var cliRequired = []string{"mode:cli", "cli:cmd:extract", "cli:cmd:cat", "cli:cmd:server", "cli:shape:router", "cli:shape:failover",
+	"cli:cache:local", "cli:cache:http", "cli:cache-repair:on", "cli:cache-repair:off",
+	"cli:ev:repair", "cli:ev:repair-nonlocal-cache", "cli:ev:fill", "cli:ev:hit", "cli:ev:failover-advance", "cli:ev:router-fallthrough",
+	"cli:expect:success", "cli:expect:failure", "cli:server:reload-observed"}
+
 func TestMain(m *testing.M) {
+	if cliBin() != "" {
+		spec.Required = append(spec.Required, cliRequired...)
+	}
 	// The driver runs several shards side by side; 4 Ps per process give real parallelism for the
 	// concurrent phase without 16 mostly idle Ps per process fighting over the machine.
 	if os.Getenv("GOMAXPROCS") == "" && runtime.NumCPU() > 4 {
